@@ -62,4 +62,69 @@ theorem concat_tie (m : Mem) (d s : Hd) : c_cstl_slist_concat m d s = concat m d
   simp only [c_cstl_slist_concat, concat]
   split <;> simp_all
 
+/-- the `while (c->n != NULL)` loop of `cstl_slist_reverse` -/
+theorem revLoop_tie (fuel : Nat) (m : Mem) (l : Hd) (c : Nat) :
+    c_cstl_slist_reverse_loop1 fuel m l c = (revLoop fuel m l.h c).map (fun m' => (m', l, c)) := by
+  induction fuel generalizing m with
+  | zero =>
+    simp only [c_cstl_slist_reverse_loop1, revLoop]
+    split <;> simp_all
+  | succ f ih =>
+    simp only [c_cstl_slist_reverse_loop1, revLoop]
+    split
+    · exact ih _
+    · simp_all
+
+theorem reverse_tie (m : Mem) (l : Hd) : c_cstl_slist_reverse l.count m l = reverse m l := by
+  simp only [c_cstl_slist_reverse, reverse, revLoop_tie]
+  split
+  · cases revLoop l.count m l.h (m l.h) <;> rfl
+  · rfl
+
+/-- the loop of `cstl_slist_clear` with a callback that overwrites the
+element's link: whenever the translated loop finishes it yields the memory of
+the model's `clearLoop` (which additionally records the callback order) -/
+theorem clearLoop_tie (poison : Nat → Nat) (fuel : Nat) (m : Mem) (l : Hd) (h : Nat) (acc : List Nat)
+    (r : Mem × Hd × Nat)
+    (hr : c_cstl_slist_clear_loop1 (fun m c => upd m c (poison c)) fuel m l h = some r) :
+    r.1 = (clearLoop poison fuel m h acc).1 ∧ r.2.1 = l ∧ r.2.2 = 0 := by
+  induction fuel generalizing m h acc with
+  | zero =>
+    simp only [c_cstl_slist_clear_loop1] at hr
+    split at hr
+    · cases hr
+    · rename_i hh
+      have : h = 0 := by simpa using hh
+      cases hr; subst this; simp [clearLoop]
+  | succ f ih =>
+    simp only [c_cstl_slist_clear_loop1] at hr
+    split at hr
+    · rename_i hh
+      have hne : h ≠ 0 := by simpa using hh
+      have := ih _ _ (h :: acc) hr
+      simpa [clearLoop, hne] using this
+    · rename_i hh
+      have : h = 0 := by simpa using hh
+      cases hr; subst this; simp [clearLoop]
+
+theorem clear_tie (poison : Nat → Nat) (m : Mem) (l : Hd) (r : Mem × Hd)
+    (hr : c_cstl_slist_clear (fun m c => upd m c (poison c)) (l.count + 1) m l = some r) :
+    r.1 = (clear m l poison).1 ∧ r.2 = (clear m l poison).2.1 := by
+  simp only [c_cstl_slist_clear] at hr
+  split at hr
+  · cases hr
+  · rename_i m' l' h' heq
+    have := clearLoop_tie poison (l.count + 1) m l (m l.h) [] (m', l', h') heq
+    obtain ⟨e1, e2, e3⟩ := this
+    simp only at e1 e2 e3
+    cases hr
+    subst e2
+    simp only [clear, init]
+    rw [← e1]
+    simp
+
+theorem swap_tie (m : Mem) (a b : Hd) : c_cstl_slist_swap m a b = swap m a b := by
+  simp only [c_cstl_slist_swap, swap]
+  split <;> split <;> simp_all
+
 end Cstl.SList.Tie
